@@ -24,8 +24,9 @@ RULES = {
     'R11': 'what is not a disconnect is not taken for one (is_connected, once cleared, stays cleared and the client then no longer waits): qb_ipc_us_sock_error_is_disconnected, evaluated for each error code, answers no for the transient results - EAGAIN, ETIMEDOUT, EINTR, EMSGSIZE, ENOMSG, EINVAL and ENOBUFS (the caller\'s receive buffer is too small for the message that is waiting) - and yes for ENOTCONN, ECONNRESET, EPIPE, ESHUTDOWN, EBADF',
     'R12': 'the last reference takes the connection off the service\'s list and gives the service reference back on every path to the free (= C04.R3): a client that dies while its connection is being set up (state ACTIVE, set back to INACTIVE by the teardown) is not freed while still listed',
     'R13': 'a connection given up while ACTIVE has its transport taken down by qb_ipcs_disconnect itself: that branch sets the state back to INACTIVE before the last reference goes, and in INACTIVE the transport disconnect releases nothing - leaving the teardown to the final unref leaks the rings / sockets / files of a client that died before it was told (= C04.R1 disconnect:ACTIVE)',
+    'R14': 'a dead client\'s connection is shut down once (= C04.R7): whatever state a first qb_ipcs_disconnect leaves it in - closed running, closed done, re-run queued - a second one calls no callback, queues no job and drops no reference, so the queued re-run never finds the connection freed',
 }
-FLOORS = {'R1': 9, 'R2': 10, 'R3': 11, 'R4': 7, 'R5': 6, 'R6': 3, 'R7': 2, 'R8': 2, 'R9': 7, 'R10': 3, 'R11': 12, 'R12': 2, 'R13': 1}
+FLOORS = {'R14': 3, 'R1': 9, 'R2': 10, 'R3': 11, 'R4': 7, 'R5': 6, 'R6': 3, 'R7': 2, 'R8': 2, 'R9': 7, 'R10': 3, 'R11': 12, 'R12': 2, 'R13': 1}
 
 POLLNVAL, POLLHUP, POLLIN = 0x20, 0x10, 0x1
 
@@ -57,6 +58,13 @@ def run(ctx):
         if r['key'].startswith('disconnect:ACTIVE') or r['key'].endswith('-transport-sees-the-state'):
             r['rule'] = 'R13'
             ctx.results.append(r)
+    # R14 = C04.R7: a client's death is cleaned up once - while the re-run of connection_closed is queued for it, a second disconnect
+    # (qb_ipcs_destroy, a reference holder) drops nothing: the queued job would otherwise run on a freed connection
+    sub = type(ctx)(ctx.prog, ctx.prop, ctx.tier, ctx.depth)
+    c04.r7(sub, ctx.prog.enum('qb_ipcs_connection_state'))
+    for r in sub.results:
+        r['rule'] = 'R14'
+        ctx.results.append(r)
 
 
 def _scenario(f, init, tracked, mark_call, start=None, effect=None):
